@@ -76,7 +76,8 @@ def observe_decisions(maxn, threads):
                     try:
                         with warnings.catch_warnings():
                             warnings.simplefilter('ignore')
-                            tsc_parallel(pos, grid, 1.0, nthread=t, npartition=(arg or None), coord=coord)
+                            # the options that do not enter the rule (wrap, sort) rotate: the decision must not depend on them
+                            tsc_parallel(pos, grid, 1.0, nthread=t, npartition=(arg or None), coord=coord, wrap=bool((n1d + arg + t) % 2), sort=bool((arg // 2 + coord + t // 2) % 2))
                         acc = True
                     except ValueError:
                         acc = False
